@@ -232,6 +232,8 @@ macro_rules! p3 {
         }
     };
 }
+p3!(p3_lossy_f32_3, f32, 3, 5);
+p3!(p3_lossy_f64_3, f64, 3, 5);
 p3!(p3_lossy_f32_4, f32, 4, 6);
 p3!(p3_lossy_f64_4, f64, 4, 6);
 p3!(p3_lossy_f32_5, f32, 5, 7);
